@@ -14,11 +14,22 @@ minimum + Gauss-Legendre quadrature of exp(np.interp(.., ln K)) (no FITPACK, no
 QUADPACK, no closed form), no exception at or below the highest knot,
 monotonicity and the Lipschitz bounds Kmin dz <= dT <= Kmax dz over the sorted
 levels (continuity across knots uses levels one ulp apart), array = scalar.
+
+Ways a function comes into being (case field `via`): 'class' - SplineTransmissivity(...) directly; 'factory' -
+create_transmissivity_function on a parameters dictionary of floats; 'yaml' - the factory on what yaml.safe_load
+gives for a parameter text (whole numbers arrive as Python ints, `1e-05` as a string: the latter may be refused,
+never answered wrongly); 'simulate' - the callable that `spowtd simulate recession DB FILE` hands to
+compute_recession_curve (captured from outside).  Conductivities inside, at and outside the PEST bounds
+[1e-4, 1e5]; knot sets with a knot at exactly 0.0 (as the lowest, the second, a middle or the highest knot) and
+the levels 0.0 / -0.0; every array call keeps its array: it is compared bit-for-bit with a pristine copy
+afterwards, handed over a second time, also read-only and as non-contiguous views.
 """
 import math
+import os
 import warnings
 
 import numpy as np
+import yaml
 
 from harness import common as C
 from harness import gen_hydraulic as H
@@ -37,6 +48,84 @@ def build(zk, K, Tmin):
         with warnings.catch_warnings():
             warnings.simplefilter('ignore')
             return ('ok', tm.SplineTransmissivity(list(zk), list(K), Tmin))
+    except Exception as e:  # pylint: disable=broad-except
+        return ('err', C.err_of(e))
+
+
+SY_SECTION = ('specific_yield:\n  type: spline\n  zeta_knots_mm: [-291.75, -183.125, -15.75, 10.625, 38.75, 168.25]\n'
+              '  sy_knots: [0.1358, 0.1671, 0.2541, 0.2907, 0.2892, 0.6857]\n')
+
+
+def param_text(c):
+    """The parameter file of a case: the numbers in the texts the case prescribes."""
+    t = c['texts']
+    return ('%stransmissivity:\n  type: spline\n  zeta_knots_mm: [%s]\n  K_knots_km_d: [%s]\n'
+            '  minimum_transmissivity_m2_d: %s\n' % (SY_SECTION, ', '.join(t['zk']), ', '.join(t['K']), t['Tmin']))
+
+
+_CMD = {}
+
+
+def cmd_dataset():
+    """One dataset with an assembled recession curve and a curvature, built through the real CLI (which dataset
+    is irrelevant here: the command is only asked for the transmissivity callable it builds)."""
+    if _CMD.get('repo') != C.REPO:
+        from harness import curves_common as CC
+        _CMD.clear()
+        for n in range(6):
+            plan = CC.make_plan(C.rng_for(0, PROP, 'cmd-dataset', n), varying_et=True)
+            plan['curvature'] = 1.5
+            r = CC.build_from_plan(PROP, plan, steps=('recession', 'curvature'), name='cmd_db')
+            if r['status'] == 'ok' and r.get('db'):
+                _CMD.update(db=r['db'], dir=r['dir'], repo=C.REPO)
+                break
+        else:
+            raise RuntimeError('no dataset could be assembled for the command path')
+    return _CMD['db'], _CMD['dir']
+
+
+def through_simulate(text):
+    """The transmissivity callable `spowtd simulate recession` builds from the parameter file."""
+    import spowtd.simulate_recession as sr
+    from harness import dataset as D
+    db, d = cmd_dataset()
+    pfile, ofile = os.path.join(d, 'parameters.yml'), os.path.join(d, 'out.yml')
+    with open(pfile, 'w') as f:
+        f.write(text)
+    got = []
+    orig = sr.compute_recession_curve
+
+    def wrapper(specific_yield, transmissivity_m2_d, zeta_grid_mm, mean_elapsed_time_d, curvature_km, et_mm_d):
+        got.append(transmissivity_m2_d)
+        return np.zeros(np.shape(zeta_grid_mm), dtype=float)
+    sr.compute_recession_curve = wrapper
+    try:
+        _, exc, _ = D.cli(['simulate', 'recession', db, pfile, '-o', ofile])
+    finally:
+        sr.compute_recession_curve = orig
+    if exc is not None:
+        raise exc
+    if len(got) != 1:
+        raise RuntimeError('compute_recession_curve called %d times' % len(got))
+    return got[0]
+
+
+def build_case(c):
+    """The transmissivity function of a case, brought into being the way the case says."""
+    import spowtd.transmissivity as tm
+    via = c.get('via', 'class')
+    if via == 'class':
+        return build(c['zk'], c['K'], c['Tmin'])
+    try:
+        with warnings.catch_warnings():
+            warnings.simplefilter('ignore')
+            if via == 'factory':
+                return ('ok', tm.create_transmissivity_function(dict(
+                    type='spline', zeta_knots_mm=list(c['zk']), K_knots_km_d=list(c['K']),
+                    minimum_transmissivity_m2_d=c['Tmin'])))
+            if via == 'yaml':
+                return ('ok', tm.create_transmissivity_function(yaml.safe_load(param_text(c))['transmissivity']))
+            return ('ok', through_simulate(param_text(c)))
     except Exception as e:  # pylint: disable=broad-except
         return ('err', C.err_of(e))
 
@@ -76,7 +165,7 @@ def close(a, b, rel=REL, ab=ABS):
 
 # ------------------------------------------------------------- cases
 
-def gen_case(rng, k, nlev):
+def gen_case(rng, k, nlev, outside=False):
     shape = H.K_SHAPES[k % len(H.K_SHAPES)]
     zk = H.gen_knots(rng, rng.choice([5, 6, 8]) if shape == 'spiky' else None)
     if shape == 'spiky' and len(zk) >= 4:
@@ -85,7 +174,7 @@ def gen_case(rng, k, nlev):
         for i in range(1, len(zk) - 1, 2):
             zk[i] = round(zk[i + 1] - rng.choice([0.942, 1.092, 1.5, 0.5]), 3) if zk[i + 1] - zk[i - 1] > 3 else zk[i]
         assert all(b > a for a, b in zip(zk, zk[1:])), zk
-    K = H.gen_conductivities(rng, len(zk), shape)
+    K = H.gen_conductivities(rng, len(zk), shape, outside=outside)
     Tmin = H.round_sig(H.loguniform(rng, 1e-4, 1e5), rng.choice([2, 4]))
     z0, zn = zk[0], zk[-1]
     levels = H.levels_for(rng, zk, nlev)
@@ -98,6 +187,112 @@ def gen_case(rng, k, nlev):
     rng.shuffle(above)
     return dict(cls=shape, zk=zk, K=K, Tmin=Tmin, levels=levels, above=above[:2],
                 form=rng.choice(['float', 'np', 'int']))
+
+
+PEST_BOUNDS = (1e-4, 1e5)
+
+
+def gen_extra_case(rng, k, nlev):
+    """A function that comes into being through the factory / a parameter text / the simulate command, with
+    conductivities inside, at and (3 cases of 4) outside the PEST bounds, the numbers written the ways a parameter
+    file may write them (whole numbers without a dot -> Python ints)."""
+    via = ('factory', 'yaml', 'simulate')[k % 3]
+    c = gen_case(rng, k, nlev, outside=(k % 4 != 3))
+    c['cls'] += '/' + via
+    if rng.random() < 0.5:      # one conductivity exactly at a bound
+        c['K'][rng.randrange(len(c['K']))] = rng.choice(PEST_BOUNDS)
+    if rng.random() < 0.5:      # whole numbers where that keeps the knot set strictly increasing
+        zr = [float(round(z)) for z in c['zk']]
+        if all(b > a for a, b in zip(zr, zr[1:])):
+            moved = dict(zip(c['zk'], zr))
+            c['levels'] = sorted(set(moved.get(z, z) for z in c['levels'] if zr[0] - 200 < moved.get(z, z) <= zr[-1]))
+            c['above'] = [z for z in c['above'] if z > zr[-1]] or [zr[-1] + 1.0]
+            c['zk'] = zr
+        c['K'] = [float(round(x)) if x >= 1 else x for x in c['K']]
+        c['Tmin'] = float(round(c['Tmin'])) if c['Tmin'] >= 1 else c['Tmin']
+    c['via'] = via
+    c['coq_max'] = 1
+    if via != 'factory':
+        style = lambda x: H.yaml_number_text(x, rng.choice(H.YAML_STYLES))   # noqa: E731
+        t = dict(zk=[style(z) for z in c['zk']], K=[style(x) for x in c['K']], Tmin=style(c['Tmin']))
+        for key in ('zk', 'K'):     # `1e-05` is a string for YAML 1.1: kept for the dedicated cases below
+            t[key] = [x if H.yaml_type(x) != 'str' else H.yaml_number_text(float(x), 'dump') for x in t[key]]
+        if H.yaml_type(t['Tmin']) == 'str':
+            t['Tmin'] = H.yaml_number_text(float(t['Tmin']), 'dump')
+        c['texts'] = t
+    return c
+
+
+def gen_str_case(rng, k, nlev):
+    """A parameter text with one number written like `1e-05` (no dot: yaml.safe_load returns the string)."""
+    c = gen_case(rng, k, nlev, outside=True)
+    via = ('yaml', 'simulate')[k % 2]
+    c['cls'] += '/' + via + '/str'
+    c['via'], c['coq_max'], c['str_typed'] = via, 1, True
+    t = dict(zk=[H.yaml_number_text(z, 'dump') for z in c['zk']], K=[H.yaml_number_text(x, 'dump') for x in c['K']],
+             Tmin=H.yaml_number_text(c['Tmin'], 'dump'))
+    j = rng.randrange(len(c['K']))
+    if k % 3 == 2:
+        c['Tmin'] = float(rng.choice(['1e-05', '2e-03', '1e+16']))
+        t['Tmin'] = repr(c['Tmin'])
+        assert H.yaml_type(t['Tmin']) == 'str'
+    else:
+        c['K'][j] = float(rng.choice(['1e-05', '3e-06', '1e-07', '2e-05']))
+        t['K'][j] = repr(c['K'][j])
+        assert H.yaml_type(t['K'][j]) == 'str'
+    c['texts'] = t
+    return c
+
+
+def gen_zero_case(rng, k, nlev):
+    """A knot at exactly 0.0 mm (the peat surface) - as the second knot (the only interior knot below the levels
+    of the segment above it), the lowest, a middle or the highest knot - and the levels 0.0 and -0.0; for the
+    spiky shapes a long segment below the knot at 0.0 and a narrow steep one above it."""
+    shape = ('spiky_low', 'spiky', 'spiky_low', 'random', 'spiky_low', 'sawtooth', 'spiky_low', 'bounds')[k % 8]
+    n = rng.choice([4, 5, 6])
+    pos = (1, 1, 0, 1, n - 1, 2, 1, 1)[k % 8]
+    spiky = shape.startswith('spiky')
+    gaps = []
+    for i in range(n - 1):
+        if spiky and i % 2:
+            gaps.append(rng.choice([0.942, 1.092, 1.5, 0.5, 1.0]))
+        elif spiky:
+            gaps.append(round(H.loguniform(rng, 100.0, 3000.0), 3))
+        else:
+            gaps.append(round(H.loguniform(rng, 0.5, 500.0), 3))
+    zk = [0.0] * n
+    for i in range(pos + 1, n):
+        zk[i] = round(zk[i - 1] + gaps[i - 1], 3)
+    for i in range(pos - 1, -1, -1):
+        zk[i] = round(zk[i + 1] - gaps[i], 3)
+    assert zk[pos] == 0.0 and all(b > a for a, b in zip(zk, zk[1:])), zk
+    K = H.gen_conductivities(rng, n, shape, outside=rng.random() < 0.5)
+    Tmin = H.round_sig(H.loguniform(rng, 1e-4, 1e5), rng.choice([2, 4]))
+    z0, zn = zk[0], zk[-1]
+    levels = H.levels_for(rng, zk, nlev) + [0.0]
+    if spiky:
+        for i in range(1, n - 1, 2):
+            levels += [round(zk[i] + gaps[i] * f, 4) for f in (0.25, 0.5, 0.75)] + [zk[i + 1]]
+            levels += [round(zk[i + 1] + d, 3) for d in (0.12, 1.0, 3.0)]
+        levels += [round(z0 + (zn - z0) * j / 9.0, 3) for j in range(1, 9)]
+    levels = sorted(set(z for z in levels if z <= zn)) + ([-0.0] if z0 <= 0.0 else [])
+    above = [math.nextafter(zn, math.inf), zn + 1e-3 * (zn - z0), zn + 0.02 * (zn - z0), zn + 0.7 * (zn - z0) + 1.0]
+    rng.shuffle(above)
+    return dict(cls='zero-knot@%d/%s' % (pos if pos < n - 1 else -1, shape), zk=zk, K=K, Tmin=Tmin, levels=levels,
+                above=above[:2], form=rng.choice(['float', 'np', 'int']), via=('class', 'factory')[k % 2], coq_max=1)
+
+
+CASE_KEYS = ('cls', 'zk', 'K', 'Tmin', 'levels', 'above', 'form')
+OPT_KEYS = ('via', 'texts', 'str_typed', 'coq_max')
+
+
+def jcase_of(c):
+    return dict(level='FL', **{k: c[k] for k in CASE_KEYS}, **{k: c[k] for k in OPT_KEYS if k in c})
+
+
+def k_class(x):
+    lo, hi = PEST_BOUNDS
+    return 'below-bounds' if x < lo else 'above-bounds' if x > hi else 'at-bounds' if x in (lo, hi) else 'inside'
 
 
 SHIPPED = dict(cls='shipped', zk=[-291.7, -5.167, 168.3, 1000.0], K=[5.356e-3, 1.002, 6577.0, 8.430e+3],
@@ -141,15 +336,36 @@ def check_cases(cases, out, label):
     goals, meta = [], []
     for ci, c in enumerate(cases):
         zk, K, Tmin = c['zk'], c['K'], c['Tmin']
-        jcase = dict(level='FL', **{k: c[k] for k in ('cls', 'zk', 'K', 'Tmin', 'levels', 'above', 'form')})
+        jcase = jcase_of(c)
+        via = c.get('via', 'class')
         out.count('knots:' + c['cls'])
         out.count('n_knots=%d' % len(zk))
-        st, T = build(zk, K, Tmin)
+        out.count('via:' + via)
+        for x in K:
+            out.count('K:' + k_class(x))
+        if 0.0 in zk:
+            out.count('knot-at-0.0:index=%s' % ('last' if zk[-1] == 0.0 else zk.index(0.0)))
+        if 'texts' in c:
+            for x in c['texts']['zk'] + c['texts']['K'] + [c['texts']['Tmin']]:
+                out.count('yaml-type:' + H.yaml_type(x))
+        st, T = build_case(c)
         if st == 'err':
             out.evaluations += 1
-            out.violation('oracle', 'SplineTransmissivity refuses (%s) a strictly increasing knot set with positive '
-                          'conductivities: knots=%s K=%s' % (T, zk, K), case=jcase)
+            if c.get('str_typed'):
+                # a number the YAML loader hands over as a string: a refusal is not a wrong answer
+                out.count('str-typed:refused:' + T)
+                continue
+            out.violation('oracle', 'a spline transmissivity (made through: %s) is refused (%s) for a strictly '
+                          'increasing knot set with positive conductivities: knots=%s K=%s%s'
+                          % (via, T, zk, K, ('; parameter file:\n' + param_text(c)) if 'texts' in c else ''),
+                          case=jcase)
             continue
+        if c.get('str_typed'):
+            out.count('str-typed:accepted')
+        lv, cm = c['levels'], c.get('coq_max')
+        # Coq encloses every level of the original classes and an even share of the levels of the added ones (the
+        # oracle judges all of them)
+        coq_levels = set(lv) if cm is None else {lv[(2 * i + 1) * len(lv) // (2 * cm)] for i in range(cm)} | {zk[-1]}
         z0, zn = zk[0], zk[-1]
         kmin, kmax = min(K), max(K)
         knots_lit = H.cRpairs(zk, K)
@@ -162,7 +378,11 @@ def check_cases(cases, out, label):
             where = ('below' if z < z0 else 'at-lowest' if z == z0 else 'at-highest' if z == zn else
                      'above' if z > zn else 'at-knot' if z in zk else 'inside')
             out.count('level:' + where)
-            msg_in = 'knots=%s K=%s Tmin=%r level=%r' % (zk, K, Tmin, z)
+            msg_in = 'knots=%s K=%s Tmin=%r level=%r%s' % (zk, K, Tmin, z, '' if via == 'class' else
+                                                            ' (function made through: %s)' % via)
+            if st == 'err' and c.get('str_typed') and v == 'EType':
+                out.count('str-typed:refused-at-call')      # a string handed over by the YAML loader: refused, not answered
+                continue
             if st == 'err':
                 if z <= zn:
                     out.violation('oracle', 'transmissivity raised %s at a level at or below the highest knot: %s'
@@ -195,6 +415,8 @@ def check_cases(cases, out, label):
                               'conductivity (%r, Gauss-Legendre): %s' % (v, want, msg_in), case=jcase)
             if z0 < z <= zn and len(zk) >= 3 and z > zk[1]:
                 out.nontriv(('v', tuple(zk), tuple(K), Tmin, z))
+            if z not in coq_levels:
+                continue
             goals.append(('Rabs (T_closed %s %s %s - %s) <= %s'
                           % (knots_lit, H.cR(Tmin), H.cR(z), H.cR(v), H.tol_expr(v, REL, ABS)),
                           'T_closed_eval', H.INTERVAL))
@@ -222,6 +444,22 @@ def check_cases(cases, out, label):
                               % (name, arr, [vals[z] for z in ok_levels], zk, K, ok_levels), case=jcase)
             elif not (isinstance(arr, np.ndarray) and arr.dtype == np.float64):
                 out.violation('oracle', 'array path does not return a float64 array', case=jcase)
+        # the caller keeps its array: unchanged afterwards (bit for bit), and the same answer the second time; also
+        # for an array that may not be written to and for non-contiguous views
+        for mode in H.ARRAY_MODES:
+            results, modified = H.call_twice(T, ok_levels, mode)
+            out.evaluations += len(results)
+            out.count('array-kept:' + mode)
+            if modified:
+                out.violation('oracle', 'the caller\'s levels were modified: the float64 array (%s) handed to the '
+                              'transmissivity function differs from its pristine copy afterwards: knots=%s K=%s levels=%s'
+                              % (mode, zk, K, ok_levels), case=jcase)
+            for n, (st, arr) in enumerate(results, 1):
+                if st == 'err' or [float(x) for x in arr] != [vals[z] for z in ok_levels]:
+                    out.violation('oracle', 'call number %d with the same float64 array (%s) gives %s, scalar calls at '
+                                  'these levels give %s: knots=%s K=%s levels=%s'
+                                  % (n, mode, arr, [vals[z] for z in ok_levels], zk, K, ok_levels), case=jcase)
+                    break
         # integer-typed arguments: a list of Python ints and an integer-dtype ndarray (whole-number levels of the
         # knot range) must give the float values the scalar calls give
         lo_i, hi_i = math.ceil(z0 - 2), math.floor(zn)
@@ -247,14 +485,14 @@ def check_cases(cases, out, label):
             if (st, arr) != ('err', 'ENotImpl'):
                 out.violation('corr', 'array holding a refused level %r returns %s %s (model: first exception wins)'
                               % (refused[0], st, arr), case=jcase)
-    status, errs, secs = H.run_goals(PROP, label, MODULES, goals)
+    status, errs, secs = H.run_goals(PROP, label, MODULES, goals, per_file=max(8, -(-len(goals) // 32)))
     out.corr_errors += errs
     out.notes.append('%s: %d interval goals in %.1fs' % (label, len(goals), secs))
     for (ci, z, v, want), s in zip(meta, status):
         if s == 'OK':
             continue
         c = cases[ci]
-        jcase = dict(level='FL', **{k: c[k] for k in ('cls', 'zk', 'K', 'Tmin', 'levels', 'above', 'form')})
+        jcase = jcase_of(c)
         if s == 'MISMATCH':
             out.violation('corr', 'Coq cannot enclose T_closed within 1e-6 rel + 1e-9 of the implementation value '
                           '%r at level %r (independent quadrature gives %r): knots=%s K=%s Tmin=%r'
@@ -319,6 +557,11 @@ def run(ctx, out):
     nsets, nlev = (14, 7) if tier == 'quick' else (110, 9)
     cases = [SHIPPED, SPIKY_WITNESS] + [gen_case(rng, k, nlev) for k in range(nsets)]
     cases += [gen_case(rng, H.K_SHAPES.index('spiky'), nlev) for _ in range(3 if tier == 'quick' else 12)]
+    # added classes, each from its own stream (the cases above are what they were)
+    rx, rz, rs = (C.rng_for(seed, PROP, tag) for tag in ('made-through', 'zero-knot', 'yaml-str'))
+    cases += [gen_extra_case(rx, k, nlev) for k in range(9 if tier == 'quick' else 48)]
+    cases += [gen_zero_case(rz, k, nlev) for k in range(8 if tier == 'quick' else 48)]
+    cases += [gen_str_case(rs, k, nlev) for k in range(3 if tier == 'quick' else 12)]
     check_cases(cases, out, 'fl')
     check_malformed(malformed_cases(rng, 12 if tier == 'quick' else 60), out, 'malformed')
     check_history(C.rng_for(seed, PROP, 'history'), 40 if tier == 'quick' else 300, out)
@@ -328,7 +571,16 @@ def run(ctx, out):
                 'every knot, inside segments, one ulp below and at the highest knot, above it; scalar (float, '
                 'np.float64, int) and array (ndarray, list). Non-trivial: a level strictly above the second knot '
                 'and at or below the highest knot of a set with >= 3 knots (at least two segments contribute); '
-                'distinct by (knots, K, Tmin, level).')
+                'distinct by (knots, K, Tmin, level). Added classes (own random streams; every level through the '
+                'oracle, a middle level and the highest knot of each through Coq): functions made through '
+                'create_transmissivity_function, through yaml.safe_load of a parameter text (numbers written as '
+                'yaml.safe_dump / repr / without a dot -> Python int / PEST notation) and through `spowtd simulate '
+                'recession` (callable captured at compute_recession_curve), with conductivities 1e-7..1e8, i.e. '
+                'inside, at and outside the PEST bounds [1e-4, 1e5]; knot sets with a knot at exactly 0.0 (lowest, '
+                'second, middle, highest) incl. a long quiet segment below it and a narrow steep one above it, '
+                'levels 0.0 and -0.0; one number of the text written like 1e-05 (a string for YAML 1.1: refusal '
+                'or the right value). Every float64 array handed over is kept, compared bit-for-bit afterwards '
+                'and handed over a second time (writable, read-only, strided, reversed view).')
     out.samples = [dict(knots=c['zk'], K=c['K'], Tmin=c['Tmin'], levels=c['levels'][:4]) for c in cases[:3]]
     out.assumptions += [
         'scipy.integrate.quad (QUADPACK) is an oracle: "evaluates the integrand strictly inside the interval and '
@@ -347,4 +599,4 @@ def replay(case, out):
     elif case.get('level') == 'malformed':
         check_malformed([case], out, 'replay')
     else:
-        check_cases([case], out, 'replay')
+        check_cases([{k: v for k, v in case.items() if k != 'coq_max'}], out, 'replay')    # every level through Coq
